@@ -382,3 +382,29 @@ impl MainState {
         broadcast use group_hash_axioms, bridge, string_eq;
 //@end
 }
+
+// ===== CONTRACT: STATS is for (local) operators only (C11); the statistics themselves (chrono clock, const_table iteration, atomics) are an opaque region =====
+impl MainState {
+    // ASSUMED stand-in for the opaque region `match stat { 'u' => .., 'm' => .., _ => {} }` of process_stats: it only feeds replies
+    #[verifier::external_body]
+    pub async fn verif_stats_body(&self, stream: &mut BufferedLineStream, client: &str, stat: char) -> (r: Result<(), HErr>)
+        ensures log_extends(old(stream).log(), final(stream).log()),
+    { unimplemented!() }
+//@fn state/srv_query_cmds.rs MainState::process_stats unit=oper2 props=C11,C05 rules=R1,R2
+//@opaque ~match stat \{
+                self.verif_stats_body(&mut conn_state.stream, client, stat).await?;
+//@spec
+        requires state_wf(*old(state)), conn_ok(*old(conn_state), *old(state)),
+        ensures
+            conn_same_but_stream(*final(conn_state), *old(conn_state)), // @prop C11
+            *final(state) == *old(state), // @prop C11
+            // everyone who is not a (local) operator gets the privilege error and nothing else happens
+            server is None && !local_oper(old(state).users@[my_nick(*old(conn_state))].modes) ==> // @prop C11
+                final(conn_state).stream.log() == old(conn_state).stream.log().push(fed(self.config.name@,
+                    Reply::ErrNoPrivileges481 { client: str_of(client_name_spec(old(conn_state).user_state)) })),
+            server is Some ==> final(conn_state).stream.log() == old(conn_state).stream.log().push(fed(self.config.name@, Reply::ErrUnknownError400 {
+                client: str_of(client_name_spec(old(conn_state).user_state)), command: "STATS", subcommand: None, info: "Server unsupported" })), // @prop C11
+//@open
+        broadcast use group_hash_axioms, bridge;
+//@end
+}
